@@ -24,6 +24,10 @@ ASSUMPTIONS = ["finite coordinates with magnitude <= 1e12, rectangle min <= max"
 TOL_REL = Fraction(1, 10 ** 9)
 
 
+REACH_EXEMPT = {"point_in_bounds": "named by the anchors only as the tolerance notion callers use; clip_segment "
+                                   "does not call it and this check does not decide it (C18 does)"}
+
+
 def classify(rec):
     return None
 
@@ -339,12 +343,17 @@ def one_case(ctx, mon, segment, bounds):
 
 
 def run(ctx):
+    from .. import wtests
+    wtests.run(ctx)
     mon = install(ctx)
     rng = ctx.rng
     n = ctx.budget(45_000, 700_000)
     for _ in range(n):
         if not ctx.alive():
             break
+        if rng.random() < 0.004:
+            from .. import noise
+            noise.burst(ctx, rng, exclude=('clip', 'limits'))
         if rng.random() < 0.005:
             from ..gen_stepper import failed_call
             failed_call(rng, plot_utils_clip(), 2)
@@ -408,6 +417,7 @@ def run(ctx):
     ctx.need("shape: segment given as tuples", 1000)
     ctx.need("line aimed through a corner (decimal coordinates)", 5000)
     ctx.need("shape: rectangle given as tuples", 1000)
+    ctx.need("history: after calls to other library functions", 100)
     contracts.uninstall_all()
 
 
